@@ -40,6 +40,7 @@ class ProvCtx:
         self.calls = []             # invocation records (dicts)
         self.on_call = None
         self.instantiations = []    # (seq, pid)
+        self.ctor_faults = False    # scenario opts in: behave(pid, '__init__', ()) may make the client constructor raise
 
 
 CTX = ProvCtx()
@@ -52,6 +53,18 @@ class SimClientBase(BaseClient):
         BaseClient.__init__(self, network, 'sim%d' % self.pid, base_url, denominator, *args)
         if CTX.world is not None:
             CTX.instantiations.append((CTX.world.log.seq, self.pid))
+            if CTX.ctor_faults and CTX.behave is not None:
+                # a provider can already fail while its client is set up (unsupported network, missing url, bad key)
+                kind, detail = CTX.behave(self.pid, '__init__', ())
+                if kind == 'raise':
+                    w = CTX.world
+                    rec = {'pid': self.pid, 'method': '__init__', 'args': (), 'kind': 'raise', 'detail': detail,
+                           'value': None, 'exc': 'ClientError', 'seq': w.log.seq + 1, 'view': None}
+                    CTX.calls.append(rec)
+                    w.fault('prov_ctor_raise', pid=self.pid)
+                    if CTX.on_call:
+                        CTX.on_call(rec)
+                    raise ClientError("simulated: provider sim%d cannot be set up for this network" % self.pid)
 
     def __getattribute__(self, name):
         if name in QUERY_METHODS:
